@@ -247,7 +247,20 @@ def obs(vc):
     out = eng.loadImportedObservations(when)
     vc.ensure("O-C19-obs.loaded", [o.tag for o in out] == ["a", "b"] and out[0].measurement == "M10" and out[1].measurement == "M11")
     eng.assess("PRIOR", when)
-    vc.ensure("O-C19-obs.saved", [o.tag for o in eng._observations] == ["a", "b"] and [o.tag for o in eng._saved_observations] == ["a", "b"])
+    ok_saved = [o.tag for o in eng._observations] == ["a", "b"] and [o.tag for o in eng._saved_observations] == ["a", "b"]
+    # the same with simulated ("realtime") observations switched on as well: stored observations are used whenever an importer database is given
+    vc.install(CE + "@handleRelevantEvents", lambda *a, **k: None)
+    vc.install(CE + "@TaskingRewardRegistration", lambda *a: "reward-job")
+    vc.install(CE + "@TaskExecutionRegistration", lambda *a: "exec-job")
+    vc.install(CE + "@datetimeToJulianDate", lambda d: ("JD", d))
+    ex = _NS(enqueueJob=lambda r: None, join=lambda: None)
+    eng2 = vc.new(CE + "CentralizedTaskingEngine", _importer_db=_NS(getData=lambda q: list(rows)), _sensor_store=sensors, _observations=[], _saved_observations=[],
+                  _realtime_obs=True, target_list=[1, 2], sensor_list=[10, 11], logger=SF.NullLogger(), sensor_changes={}, _estimate_store={1: "E1", 2: "E2"}, _target_store={},
+                  _reward=_NS(metrics=[1], normalizeMetrics=lambda mm: mm, calculate=lambda mm: np.zeros(4)), _decision=_NS(calculate=lambda r, v: np.zeros((2, 2), dtype=bool)),
+                  _reward_executor=ex, _task_exec_executor=ex, _database="DB", _unique_id=5, target_indices={1: 0, 2: 1}, _missed_observations=[], _saved_missed_observations=[])
+    eng2.assess("PRIOR", when)
+    ok_saved = ok_saved and [o.tag for o in eng2._observations] == ["a", "b"] and [o.tag for o in eng2._saved_observations] == ["a", "b"]
+    vc.ensure("O-C19-obs.saved", ok_saved)
     # routing inside the step: observations of target k reach the update job of estimate k only
     oa, ob = _NS(tag="a", sensor_id=10, target_id=1), _NS(tag="b", sensor_id=11, target_id=2)
     scn, log = SF.run_step(vc, engines=lambda lg: {5: SF.Engine(lg, 5, {}, [oa, ob])})
